@@ -123,11 +123,16 @@ def async_job(job):
     base = {"id": job["id"], "program": text, "nontrivial": True}
     between = job.get("between", False)      # a second input level per clock period, applied between the edges
     K = stages + (2 if between else 4)
+    oedge = job.get("oedge", "pos")          # the output domain's active clock edge
+    if oedge != "pos":
+        text += f" in a domain with clk_edge={oedge!r}"
+        base["program"] = text
+    hi, lo = (1, 0) if oedge == "pos" else (0, 1)
 
     def build():
         i = Signal(1, name="i")
         top = Module()
-        cd = ClockDomain("sync")
+        cd = ClockDomain("sync", clk_edge=oedge)
         top.domains += cd
         if kind == "AsyncFFSynchronizer":
             o = Signal(1, name="o")
@@ -137,9 +142,16 @@ def async_job(job):
             o = cd.rst
         return top, i, o, cd
     top, i, o, cd = build()
-    with warnings.catch_warnings():
-        warnings.simplefilter("ignore")
-        sim = symsim.SymSim(top)
+    try:
+        with warnings.catch_warnings():
+            warnings.simplefilter("ignore")
+            sim = symsim.SymSim(top)
+    except Exception as ex:
+        if oedge != "pos" and type(ex).__name__ == "DomainRequirementFailed":
+            # the primitive refuses an output domain it cannot serve (RequirePosedge): nothing is released at a wrong edge
+            return [dict(base, kind="assert-async/release-after-stages (falling-edge output domain)", status=PROVED, nontrivial=False,
+                         assertion="a falling-edge output domain is either refused or served with the release counted in its own active edges", outcome="refused")]
+        raise
     active = 1 if (edge == "pos" or kind != "AsyncFFSynchronizer") else 0
     from vlib.pysym import fresh, sym_ite, sym_and, sym_not, bool_term, eval_in_model
     # symbolic input level before each of K clock edges; reference: flops all 1 while asserted, shift in 0 at each edge
@@ -147,6 +159,8 @@ def async_job(job):
 
     def scen():
         sim.reset()
+        if oedge != "pos":
+            sim.edge((cd.clk, lo))
         sim.settle()
         ref = [1] * stages
         conds = []
@@ -157,8 +171,14 @@ def async_job(job):
             asserted = (iv == active)
             ref = [sym_ite(asserted, 1, x) for x in ref]
             conds.append(sim.value(o) != ref[-1])
-            sim.tick(cd.clk)
-            sim.edge((cd.clk, 0))
+            if oedge == "pos":
+                sim.tick(cd.clk)
+                sim.edge((cd.clk, 0))
+            else:
+                sim.edge((cd.clk, hi))           # the active (falling) edge ...
+                ref_after = [sym_ite(asserted, 1, x) for x in [0] + ref[:-1]]
+                conds.append(sim.value(o) != ref_after[-1])
+                sim.edge((cd.clk, lo))           # ... and the inactive one, which must change nothing
             ref = [sym_ite(asserted, 1, x) for x in [0] + ref[:-1]]
             conds.append(sim.value(o) != ref[-1])
             if between:
@@ -200,10 +220,12 @@ def async_cex(res, job, seq):
     stages, edge, kind = job["stages"], job["edge"], job["kind"]
     between = job.get("between", False)
     active = 1 if (edge == "pos" or kind != "AsyncFFSynchronizer") else 0
+    oedge = job.get("oedge", "pos")
+    hi, lo = (1, 0) if oedge == "pos" else (0, 1)
     with symsim.real_states():
         i = Signal(1)
         top = Module()
-        cd = ClockDomain("sync")
+        cd = ClockDomain("sync", clk_edge=oedge)
         top.domains += cd
         if kind == "AsyncFFSynchronizer":
             o = Signal(1)
@@ -216,6 +238,8 @@ def async_cex(res, job, seq):
 
         async def tb(ctx):
             ref = [1] * stages
+            if oedge != "pos":
+                ctx.set(cd.clk, lo)
             for k_, v in enumerate(seq):
                 ctx.set(i, v)
                 if v == active:
@@ -224,9 +248,11 @@ def async_cex(res, job, seq):
                 want.append(ref[-1])
                 if between and k_ % 2 == 1:
                     continue                      # the level applied between two edges
-                ctx.set(cd.clk, 1)
-                ctx.set(cd.clk, 0)
+                ctx.set(cd.clk, hi)
                 ref = ([1] * stages) if v == active else ([0] + ref[:-1])
+                got.append(ctx.get(o))
+                want.append(ref[-1])
+                ctx.set(cd.clk, lo)
                 got.append(ctx.get(o))
                 want.append(ref[-1])
         sim.add_testbench(tb)
@@ -394,6 +420,9 @@ def main(tier, seed):
         jobs.append({"id": f"rstsync-s{st}", "what": "async", "kind": "ResetSynchronizer", "stages": st, "edge": "pos"})
         if st <= 4:
             jobs.append({"id": f"rstsync-s{st}-between", "what": "async", "kind": "ResetSynchronizer", "stages": st, "edge": "pos", "between": True})
+    for st in (2, 3):
+        jobs.append({"id": f"async-s{st}-negclk", "what": "async", "kind": "AsyncFFSynchronizer", "stages": st, "edge": "pos", "oedge": "neg"})
+        jobs.append({"id": f"rstsync-s{st}-negclk", "what": "async", "kind": "ResetSynchronizer", "stages": st, "edge": "pos", "oedge": "neg"})
     for st in (2, 3) if tier == "quick" else (2, 3, 4, 5):
         jobs.append({"id": f"pulse-s{st}", "what": "pulse", "stages": st, "K": 10 if tier == "quick" else (20 if st <= 3 else 16)})
     results, stats = run.run_jobs(job_fn, jobs)
